@@ -152,7 +152,28 @@ class SGen(object):
             if r.random() < 0.4:
                 g += ' if %s' % self.expr(d + 1, True)
             gens.append(g)
+        if r.random() < 0.25:
+            # a comprehension nested in the element / condition whose target reuses a name that this level reads AFTER
+            # it: that later read is the enclosing function's variable again
+            t = r.choice(NAMES + GLOBALS)
+            inner = r.choice(['[%s for %s in %s]', '{%s for %s in %s}', 'list(%s for %s in %s)', '{%s: 1 for %s in %s}']) % (
+                r.choice([t, '%s + 1' % t, '[%s for %s in %s]' % (t, t, self.name())]), t, self.expr(3, True))
+            tail = r.choice([t, '%s.%s' % (t, r.choice(ATTRS)), '%s[0]' % t, '(%s, %s)' % (self.name(), t)])
+            elt0 = '%s + %s' % (inner, tail)
+            if r.random() < 0.3:
+                gens.append('if %s if %s' % (inner, tail))
+                elt0 = self.expr(d + 1, True)
+        else:
+            elt0 = None
         kind = r.random()
+        if elt0 is not None:
+            if kind < 0.4:
+                return '[%s %s]' % (elt0, ' '.join(gens))
+            if kind < 0.6:
+                return '{%s %s}' % (elt0, ' '.join(gens))
+            if kind < 0.8:
+                return '{%s: %s %s}' % (self.expr(d + 1, True), elt0, ' '.join(gens))
+            return 'list(%s %s)' % (elt0, ' '.join(gens))
         if kind < 0.4:
             return '[%s %s]' % (self.expr(d + 1, True), ' '.join(gens))
         if kind < 0.6:
@@ -559,8 +580,19 @@ class DGen(progs.Gen):
             if c == 2:
                 return '{%s: 1 %s}' % (elt, clauses)
             return 'sum(%s %s)' % (elt, clauses)
-        where = r.randint(0, 3)
+        where = r.randint(0, 5)
         d = self.rd(defined)
+        if where == 4 and d != '0':            # nested: the inner target reuses f's variable, the outer level reads it after
+            deep = r.random() < 0.4
+            inner = 'sum(%s for %s in (q, 1))' % (d, d) if not deep else \
+                'sum(sum(%s for %s in (q2, 1)) for q2 in (q, 2))' % (d, d)
+            self.emit(ind, '%s = %s' % (v, kind('%s + %s' % (inner, d), 'for q in (1, 2)')))
+            return defined | {v}
+        if where == 5:                         # the same over a global the function only reads
+            inner = r.choice(['len([GW for GW in (q,)])', 'len({GW for GW in (q,)})', 'sum(1 for GW in (q,))'])
+            self.emit(ind, '%s = %s' % (v, kind('%s + len(GW)' % inner, 'for q in (1, 2) if %s if GW' % inner)))
+            return defined | {v}
+        where = where % 4
         if where == 0 and d != '0':            # parameter / local of f
             self.emit(ind, '%s = %s' % (v, kind('%s + 1' % d, 'for %s in (%s, 2)' % (d, d))))
         elif where == 1:                       # global that the function only reads
